@@ -105,6 +105,7 @@ func resetScenario(spec *resetSpec) *Scenario {
 		},
 		Final: func(m *Sim, x *Exec) {
 			generalVerdicts(m, x, false)
+			resetOrderMonitor(m, x)
 		},
 	}
 }
@@ -503,6 +504,63 @@ func propC14(j *Job) {
 								return
 							}
 						}
+					}
+				}
+			}
+		}
+	}
+}
+
+// resetOrderMonitor (wire level): an Outgoing SSN Reset Request names the last TSN the sender
+// has assigned; until the peer has answered it the sender puts no new data of the
+// listed streams on the wire beyond that TSN - such data would reach the peer's old
+// incarnation after its end, or be thrown away with it ("ordered after the stream's data").
+func resetOrderMonitor(m *Sim, x *Exec) {
+	type req struct {
+		sids map[uint16]bool
+		last uint32
+	}
+	open := [2]map[uint32]*req{{}, {}}
+	seen := [2]map[uint32]bool{{}, {}}
+	for _, ev := range x.Events {
+		if ev.Pkt == nil || ev.Pkt.dec == nil {
+			continue
+		}
+		for _, c := range ev.Pkt.dec.Chunks {
+			switch {
+			case ev.Kind == "send" && c.Typ == wRECONFIG:
+				for _, p := range c.Params {
+					if p.Typ == 13 && len(p.Val) >= 12 {
+						rsn := be32(p.Val)
+						if open[ev.From][rsn] == nil {
+							r := &req{sids: map[uint16]bool{}, last: be32(p.Val[8:])}
+							for o := 12; o+1 < len(p.Val); o += 2 {
+								r.sids[be16(p.Val[o:])] = true
+							}
+							open[ev.From][rsn] = r
+						}
+					}
+				}
+			}
+			switch {
+			case ev.Kind == "send" && c.Typ == wRECONFIG:
+				for _, p := range c.Params {
+					// a final answer (anything but "in progress") closes the request from the moment the
+					// peer gives it, whether or not it arrives: the peer has performed the reset then, and
+					// what follows belongs to the next incarnation
+					if p.Typ == 16 && len(p.Val) >= 8 && be32(p.Val[4:]) != 6 {
+						delete(open[1-ev.From], be32(p.Val))
+					}
+				}
+			case ev.Kind == "send" && (c.Typ == wDATA || c.Typ == wIDATA):
+				if seen[ev.From][c.TSN] {
+					continue
+				}
+				seen[ev.From][c.TSN] = true
+				for rsn, r := range open[ev.From] {
+					if r.sids[c.SID] && sna32GT(c.TSN, r.last) {
+						m.Failf("reset.data-after-request", "endpoint %d: new data of stream %d (TSN %d) is sent while its outgoing reset request %d, which names %d as the last TSN assigned, is still unanswered: the message was queued behind the end-of-stream marker", ev.From, c.SID, c.TSN, rsn, r.last)
+						return
 					}
 				}
 			}
